@@ -613,7 +613,7 @@ impl Prop for C07 {
         let sk = c07_skels()[si];
         kdev_shard(&menus(sk), c07_k(t, sk), first, &mut |v| {
             if render(sk, v).is_some() {
-                let doc = DocCase { skel: sk, v: v.to_vec(), junk: None };
+                let doc = DocCase { skel: sk, v: v.to_vec(), junk: None, name_char: None };
                 product(&cfg_menus(), &mut |cv| {
                     f(&C07Case::Doc { doc: doc.clone(), cfg: cfg_from(cv) });
                 });
